@@ -6,6 +6,7 @@ import Rare.Gen.Skeleton
 import Rare.Model.PipelineSkeleton
 import Rare.Proofs.PipelineTrace
 import Rare.Proofs.C01Classify
+import Rare.Proofs.C01Trim
 /-!
 # C01 — every input line is read exactly once and classified exactly once
 
@@ -17,6 +18,13 @@ import Rare.Proofs.C01Classify
   every number of readers/workers ≥ 1 and every channel capacity ≥ 1: line conservation at every
   reachable state, no deadlock, termination, no send on a closed channel, and in every terminal state
   the consumer's multiset of matches and the three counters equal the sequential evaluation.
+* `context_src_line`, `classification_spec`, `worker_line_number`, `pipeline_final_classified`,
+  `mem_reference_lines`: the class and key of a line are `processLineSync`'s evaluation of the configured ignore
+  and extract expressions in the line's OWN context (its source name, its 1-based number, its bytes and
+  groups), and the terminal state of every execution is the sequential evaluation of exactly that.
+* `truthy_spec`: `Truthy` = `strings.TrimSpace(s) != ""` mirrored byte for byte, for every byte string.
+* `trace_*`: the event log of a real run is a path of the transition system, with the class of every line
+  checked against the configured classifier.
 -/
 namespace Rare.C01
 open Rare.Pipeline Rare.Batcher
@@ -271,38 +279,42 @@ theorem mem_reference_lines {datas : List Bytes} {l : Line} (h : l ∈ allLines 
     ∃ data, datas[l.src]? = some data ∧ 1 ≤ l.num ∧ (C04.splitLines data)[l.num - 1]? = some l.text :=
   mem_allLines h
 
-/-- `IgnoreMatch`/`Truthy` on ASCII text: a result is truthy iff it has a byte that is not white space. -/
-theorem truthy_ascii (s : Bytes) (hs : ∀ b ∈ s, b < 128) :
-    Expr.truthy s = true ↔ ∃ b ∈ s, Expr.isAsciiSpace b = false := by
-  unfold Expr.truthy
-  suffices h : ∀ (n : Nat) (s : Bytes), s.length < n → (∀ b ∈ s, b < 128) →
-      ((Expr.dropSpaceFront n s).isEmpty = false ↔ ∃ b ∈ s, Expr.isAsciiSpace b = false) by
-    have := h (s.length + 1) s (by omega) hs
-    simpa using this
-  intro n
-  induction n with
-  | zero => intro s h; omega
-  | succ n ih =>
-    intro s hl hs
-    cases s with
-    | nil => simp [Expr.dropSpaceFront]
-    | cons b r =>
-      by_cases hb : Expr.isAsciiSpace b = true
-      · have := ih r (by simp at hl; omega) (fun x hx => hs x (by simp [hx]))
-        simp only [Expr.dropSpaceFront, hb, if_true, this, List.mem_cons, exists_eq_or_imp]
-        simp [hb]
-      · have hb' : Expr.isAsciiSpace b = false := by simpa using hb
-        have hlt : b < 128 := hs b (by simp)
-        have : Expr.dropSpaceFront (n + 1) (b :: r) = b :: r := by
-          unfold Expr.dropSpaceFront
-          simp only [hb', Bool.false_eq_true, if_false]
-          split <;> first
-            | rfl
-            | (rename_i heq; have hb0 := (List.cons.inj heq).1; rw [hb0] at hlt; exact absurd hlt (by decide))
-            | (rename_i heq _; have hb0 := (List.cons.inj heq).1; rw [hb0] at hlt; exact absurd hlt (by decide))
-        rw [this]
-        simp only [List.isEmpty_cons, true_iff]
-        exact ⟨b, by simp, hb'⟩
+/-- `expressions.Truthy(s)` = `strings.TrimSpace(s) != ""`, for EVERY byte string (valid UTF-8 or not).
+    `trimSpace` (Model/C01Trim.lean) mirrors Go's `strings.TrimSpace` loop by loop (ASCII fast path,
+    `TrimLeftFunc` over `utf8.DecodeRune`, `TrimRightFunc` over `utf8.DecodeLastRune`, `unicode.IsSpace` = the
+    Latin-1 switch + the `White_Space` table; compared byte for byte with the real function by the `trim`
+    op).  The `truthy` that the model's classifier and the expression functions use
+    (i) is truthy exactly when that trimmed string is not empty, and
+    (ii) is truthy exactly when some rune of `[]rune(s)` – an invalid byte counts as U+FFFD – is not
+    white space.  So an ignore expression whose result is made only of white space (any of the 25
+    `White_Space` runes) does not ignore the line, and one with any other rune or any invalid byte does. -/
+theorem truthy_spec (s : Bytes) :
+    (Expr.truthy s = true ↔ trimSpace s ≠ []) ∧
+    (Expr.truthy s = true ↔ ∃ r ∈ C20.decodeUtf8 s, isSpaceR r = false) := by
+  have h1 := truthy_iff_not_allSp s
+  refine ⟨?_, ?_⟩
+  · rw [h1, ← trimSpace_empty_iff]
+  · rw [h1]
+    unfold AllSp
+    constructor
+    · intro h
+      apply Classical.byContradiction
+      intro hn
+      apply h
+      intro r hr
+      cases hsp : isSpaceR r with
+      | true => rfl
+      | false => exact absurd ⟨r, hr, hsp⟩ hn
+    · rintro ⟨r, hr, hsp⟩ h
+      rw [h r hr] at hsp; cases hsp
+
+/-- Non-vacuity / the interesting values: NBSP + EM SPACE + tab is blank (falsy, trimmed to nothing); a
+    ZERO WIDTH SPACE (U+200B, not `White_Space`) is truthy; a lone continuation byte `0xA0` is truthy
+    (U+FFFD); `TrimSpace` of `" \u00a0a\u3000"` is `a`. -/
+example :
+    Expr.truthy [0xC2, 0xA0, 0xE2, 0x80, 0x83, 9] = false ∧ trimSpace [0xC2, 0xA0, 0xE2, 0x80, 0x83, 9] = [] ∧
+    Expr.truthy [0xE2, 0x80, 0x8B] = true ∧ Expr.truthy [0xA0] = true ∧
+    trimSpace [32, 0xC2, 0xA0, 97, 0xE3, 0x80, 0x80] = [97] := by decide +kernel
 
 /-- The channel capacity and constants the model was instantiated with are the ones in the source. -/
 theorem constants_from_source : Gen.readChanCap = 5 ∧ Gen.readAheadBufferSize = 131072 ∧
@@ -407,7 +419,9 @@ theorem trace_states_invariant (cfg : Cfg) (wg : List Nat) (batches : List (List
 
 /-- An accepted log ends in a state whose consumer multiset and counters are those of the sequential
     evaluation of the configured inputs' bytes: the batches the checker derived from the logged flushes
-    (and checked against the batching-loop model) partition the inputs' lines. -/
+    (and checked against the batching-loop model) partition the inputs' lines.  `cfg.cls` is the configured
+    classifier (`clsOf e` for the case's extractor configuration `e`: every line classified with its own source
+    name and line number); the checker has compared the class logged for every line with it. -/
 theorem trace_final (cfg : Cfg) (hW : 1 ≤ cfg.W) (wg : List Nat) (L : Lin PSt) (evs : List Ev)
     (batches : List (List (List Line))) (hb : batchesOf cfg evs = some batches)
     (tr : Array Ev) (h : TraceOrder.accepts (machine cfg wg) L (initSt cfg batches) tr = true) :
@@ -464,6 +478,21 @@ example : ∀ batches, batchesOf exampleCfg exampleLog = some batches →
   rw [this] at hb
   cases hb
   decide
+
+/-- … and so is the unchanged log when the configured classifier says otherwise: under the extractor
+    `exampleExtractor` (ignore `{eq {line} 1}`) line 1 must be logged as ignored, so the log – in which the
+    worker reports it as matched, as a worker whose context still held another line's number would – is not
+    a path of the system. -/
+example : ∀ batches, batchesOf { exampleCfg with cls := clsOf exampleExtractor } exampleLog = some batches →
+    TraceOrder.accepts (machine { exampleCfg with cls := clsOf exampleExtractor } (workerGs exampleLog))
+      (lin (workerGs exampleLog) exampleLog)
+      (initSt { exampleCfg with cls := clsOf exampleExtractor } batches) exampleLog.toArray = false := by
+  intro batches hb
+  have : batchesOf { exampleCfg with cls := clsOf exampleExtractor } exampleLog =
+      some [[[⟨0, 1, [97, 98]⟩], [⟨0, 2, [120]⟩]]] := by decide
+  rw [this] at hb
+  cases hb
+  decide +kernel
 
 end Trace
 
